@@ -171,4 +171,50 @@ theorem back_ok {buf : Array UInt8} {s : Scanner} (w : SW buf s) (h : 0 < s.ofs)
       rw [hk]; simp only [Nat.add_sub_cancel]
       exact ⟨trivial, hcn⟩
 
+
+/-! ### The rest of the input as a list -/
+
+/-- From offset `k` the buffer continues with exactly the bytes `r` (to its end). -/
+def Rest (buf : Array UInt8) (k : Nat) (r : Bytes) : Prop := buf.toList.drop k = r
+
+theorem Rest.head {buf : Array UInt8} {k : Nat} {c : UInt8} {r : Bytes} (h : Rest buf k (c :: r)) :
+    buf[k]? = some c := by
+  unfold Rest at h
+  have : buf.toList[k]? = some c := by
+    rw [← List.head?_drop, h]; rfl
+  simpa using this
+
+theorem Rest.tail {buf : Array UInt8} {k : Nat} {c : UInt8} {r : Bytes} (h : Rest buf k (c :: r)) :
+    Rest buf (k + 1) r := by
+  unfold Rest at h ⊢
+  have : buf.toList.drop (k + 1) = (buf.toList.drop k).tail := by
+    rw [List.tail_drop]
+  rw [this, h]; rfl
+
+theorem Rest.lt {buf : Array UInt8} {k : Nat} {c : UInt8} {r : Bytes} (h : Rest buf k (c :: r)) : k < buf.size := by
+  have := h.head
+  apply Classical.byContradiction
+  intro hn
+  have : buf[k]? = none := by simp; omega
+  simp_all
+
+theorem Rest.append {buf : Array UInt8} {k : Nat} {a r : Bytes} (h : Rest buf k (a ++ r)) :
+    Rest buf (k + a.length) r := by
+  induction a generalizing k with
+  | nil => simpa using h
+  | cons c a ih =>
+    have := ih (k := k + 1) (by exact Rest.tail (by simpa using h))
+    simpa [Nat.add_assoc, Nat.add_comm 1] using this
+
+/-- The bytes between two offsets, when the rest at the first offset is known. -/
+theorem Rest.extract {buf : Array UInt8} {k : Nat} {a r : Bytes} (h : Rest buf k (a ++ r)) :
+    (buf.extract k (k + a.length)).toList = a := by
+  unfold Rest at h
+  rw [Array.toList_extract]
+  have : (buf.toList.drop k).take a.length = a := by rw [h]; simp
+  simpa [List.extract_eq_drop_take] using this
+
+theorem rest_start (text : Bytes) : Rest (text ++ [NUL]).toArray 0 (text ++ [NUL]) := by
+  unfold Rest; simp
+
 end N2V.Scanner
